@@ -2,7 +2,6 @@ package props
 
 import (
 	"bytes"
-	"errors"
 	"fmt"
 	"io"
 	"strings"
@@ -501,8 +500,7 @@ func (c14) Exec(script interface{}, c *core.Ctx) {
 		if !c.Call("psi.ReadPMT", func() { pm, err = psi.ReadPMT(sr2, pmtPid) }) {
 			return
 		}
-		var inj *parties.InjectedErr
-		if errors.As(err, &inj) {
+		if parties.IsReaderFault(err) {
 			if sr2.FirstErr == nil {
 				c.Fail("reader_error", "reread:error_from_nowhere", err, nil)
 				return
